@@ -482,3 +482,51 @@ func VH_C19_ListOffsetsSplitMerge(T, P int) {
 	}
 	vhReach("c19-listoffsets-split-merge")
 }
+
+// Client.ConsumerOffsets: metadata then offset fetch; the result maps every partition of the topic to the group's
+// committed offset as the coordinator reports it; the offset fetch asks for exactly the partitions of the topic.
+type vhOffsetsBroker struct {
+	partitions []int32
+	committed  map[int32]int64
+	askedGroup string
+	askedParts []int32
+}
+
+func (b *vhOffsetsBroker) RoundTrip(ctx context.Context, addr net.Addr, req Request) (Response, error) {
+	switch r := req.(type) {
+	case *pmetadata.Request:
+		t := pmetadata.ResponseTopic{Name: r.TopicNames[0]}
+		for _, p := range b.partitions {
+			t.Partitions = append(t.Partitions, pmetadata.ResponsePartition{PartitionIndex: p})
+		}
+		return &pmetadata.Response{Topics: []pmetadata.ResponseTopic{t}}, nil
+	case *poffsetfetch.Request:
+		b.askedGroup = r.GroupID
+		rt := poffsetfetch.ResponseTopic{Name: r.Topics[0].Name}
+		for _, p := range r.Topics[0].PartitionIndexes {
+			b.askedParts = append(b.askedParts, p)
+			rt.Partitions = append(rt.Partitions, poffsetfetch.ResponsePartition{PartitionIndex: p, CommittedOffset: b.committed[p]})
+		}
+		return &poffsetfetch.Response{Topics: []poffsetfetch.ResponseTopic{rt}}, nil
+	}
+	return nil, vhErrCoordinator
+}
+
+func VH_C19_ConsumerOffsets(P int) {
+	br := &vhOffsetsBroker{committed: map[int32]int64{}}
+	for p := 0; p < P; p++ {
+		id := int32(p) * 2 // partition ids need not be dense
+		br.partitions = append(br.partitions, id)
+		br.committed[id] = vhInt64("committed")
+	}
+	c := &Client{Addr: TCP("vh:9092"), Transport: br}
+	got, err := c.ConsumerOffsets(context.Background(), TopicAndGroup{Topic: "t", GroupId: "g"})
+	vhAssert(err == nil, "consumer-offsets-ok")
+	vhAssert(br.askedGroup == "g" && len(br.askedParts) == P, "offset-fetch-asks-for-the-group-and-every-partition-of-the-topic")
+	vhAssert(len(got) == P, "one-entry-per-partition")
+	for _, id := range br.partitions {
+		off, ok := got[int(id)]
+		vhAssert(ok && off == br.committed[id], "consumer-offset-is-the-coordinators-committed-offset")
+	}
+	vhReach("c19-consumer-offsets")
+}
